@@ -13,7 +13,7 @@ fn main() {
          the way the writer ends (drop or flush+drop). BUF is learnt from the size of the first delivery of a run of 1-byte writes. Oracle: \
          the sink's byte log is at every moment a prefix of, and after flush/drop equal to, the concatenation of format!(\"{}\") renderings \
          (single spaces inside vectors/tuples); in the flush-per-write (debug-assertions) build every write must have reached the sink at \
-         once. Round trip: values written with separators are read back by rlib_io::Reader with the matching typed script. Non-trivial = \
+         once. Round trip: values written with separators are read back by rlib_io::Reader with the matching typed script. The out!/outln! macros are exercised with generated values at a buffer fill level straddling BUF. Non-trivial = \
          (buffered build) a write that starts within 45 bytes of a full buffer and does not fit, or a sink that accepted a strict prefix \
          or returned Interrupted; (round trip) negative / 19+ digit / vector / tuple values. Distinct = distinct (profile, sub-check, case).",
     );
@@ -29,5 +29,7 @@ fn main() {
     ctx.prop_split("histories", "writer-case", ctx.n(3_000, 100_000), ctx.parts(), case(buf, 30).boxed(), move |c| run_case(c, buf, buffered));
     ctx.prop("short-histories", "writer-case", ctx.n(3_000, 60_000), case(buf, 5), move |c| run_case(c, buf, buffered));
     ctx.prop_split("roundtrip", "roundtrip-case", ctx.n(4_000, 100_000), ctx.parts(), rt_case(20).boxed(), run_roundtrip);
+    ctx.replayer("macro-case", move |v| run_macros(&serde_json::from_value::<MacroCase>(v.clone()).expect("case"), buf));
+    ctx.prop("output-macros", "macro-case", ctx.n(400, 10_000), macro_case(), move |c| run_macros(c, buf));
     ctx.finish();
 }
